@@ -857,11 +857,11 @@ theorem with_capacity_refines (cfg : Cfg) (w : World) (ms : MSpec) (h : MRel w m
     (MRel (step cfg (.withCap ty bk cl n) w).1 ⟨ms.vecs ++ [some ⟨ty, [], n, false, cl⟩], ms.next⟩ ∧
         (step cfg (.withCap ty bk cl n) w).2 = .ok []) ∨
     (∃ m, MRel (step cfg (.withCap ty bk cl n) w).1 ⟨ms.vecs ++ [none], ms.next⟩ ∧
-        (step cfg (.withCap ty bk cl n) w).2 = .panic m) := by
+        (step cfg (.withCap ty bk cl n) w).2 = .panic m ∧ n ≠ 0 ∧ cfg.size ≠ 0) := by
   obtain ⟨hinv, hf, hn, hlen, hsh⟩ := h
   obtain ⟨hinv', hnub⟩ := Hist.step_inv cfg (.withCap ty bk cl n) w hinv hr trivial
   have key : ∀ (nv : VecSt), nv.WF → nv.len = 0 → nv.abs = [] → nv.ty = ty → nv.cloneable = cl → nv.live = true →
-      VecSt.resizable nv.bk = true →
+      VecSt.resizable nv.bk = true → nv.cap = 0 → nv.size = cfg.size →
       (∀ d' es, nv.memResize n = .ok (d', es) → ∃ W', step cfg (.withCap ty bk cl n) w = (W', .ok []) ∧
         W'.vecs = w.vecs ++ [d'] ∧ W'.created = w.created ∧ W'.fault = w.fault) →
       (∀ m, nv.memResize n = .panic m → ∃ W', step cfg (.withCap ty bk cl n) w = (W', .panic m) ∧
@@ -869,8 +869,8 @@ theorem with_capacity_refines (cfg : Cfg) (w : World) (ms : MSpec) (h : MRel w m
       (MRel (step cfg (.withCap ty bk cl n) w).1 ⟨ms.vecs ++ [some ⟨ty, [], n, false, cl⟩], ms.next⟩ ∧
         (step cfg (.withCap ty bk cl n) w).2 = .ok []) ∨
       (∃ m, MRel (step cfg (.withCap ty bk cl n) w).1 ⟨ms.vecs ++ [none], ms.next⟩ ∧
-        (step cfg (.withCap ty bk cl n) w).2 = .panic m) := by
-    intro nv hnvwf hnvlen hnvabs hnvty hnvcl hnvlive hnvr hok hpn
+        (step cfg (.withCap ty bk cl n) w).2 = .panic m ∧ n ≠ 0 ∧ cfg.size ≠ 0) := by
+    intro nv hnvwf hnvlen hnvabs hnvty hnvcl hnvlive hnvr hnvcap hnvsize hok hpn
     cases hm : nv.memResize n with
     | ok p =>
       obtain ⟨d', es⟩ := p
@@ -887,7 +887,9 @@ theorem with_capacity_refines (cfg : Cfg) (w : World) (ms : MSpec) (h : MRel w m
     | panic m =>
       right
       obtain ⟨W', hex, hvecs, hcr, hflt⟩ := hpn m hm
-      refine ⟨m, ?_, by rw [hex]⟩
+      have hneeds := memResize_panic_needs nv n m hnvcap hm
+      rw [hnvsize] at hneeds
+      refine ⟨m, ?_, by rw [hex], hneeds⟩
       rw [hex] at hinv' ⊢
       refine ⟨hinv', hflt, by rw [hcr, hn], by rw [hvecs]; simp [hlen], ?_⟩
       exact shows_append w W' ms _ none hlen hsh hvecs rfl
@@ -896,10 +898,10 @@ theorem with_capacity_refines (cfg : Cfg) (w : World) (ms : MSpec) (h : MRel w m
       have := memResize_notUb nv n hnvr; rw [hm] at this; exact this.elim
   cases bk with
   | heap =>
-    exact key ({ ty := ty, size := cfg.size, align := cfg.align, hasDrop := cfg.hasDrop, cloneable := cl, bk := .heap, cap := 0, cells := [], len := 0, gen := 0, live := true } : VecSt) (emptyVec_good _ _ _ _ _ _ _ _ _).wf rfl rfl rfl rfl rfl rfl
+    exact key ({ ty := ty, size := cfg.size, align := cfg.align, hasDrop := cfg.hasDrop, cloneable := cl, bk := .heap, cap := 0, cells := [], len := 0, gen := 0, live := true } : VecSt) (emptyVec_good _ _ _ _ _ _ _ _ _).wf rfl rfl rfl rfl rfl rfl rfl rfl
       (fun d' es hm => ExecWithCap.ok_heap cfg w ty n cl d' es hm) (fun m hm => ExecWithCap.panic_heap cfg w ty n cl m hm)
   | reloc =>
-    exact key ({ ty := ty, size := cfg.size, align := cfg.align, hasDrop := cfg.hasDrop, cloneable := cl, bk := .reloc, cap := 0, cells := [], len := 0, gen := 0, live := true } : VecSt) (emptyVec_good _ _ _ _ _ _ _ _ _).wf rfl rfl rfl rfl rfl rfl
+    exact key ({ ty := ty, size := cfg.size, align := cfg.align, hasDrop := cfg.hasDrop, cloneable := cl, bk := .reloc, cap := 0, cells := [], len := 0, gen := 0, live := true } : VecSt) (emptyVec_good _ _ _ _ _ _ _ _ _).wf rfl rfl rfl rfl rfl rfl rfl rfl
       (fun d' es hm => ExecWithCap.ok_reloc cfg w ty n cl d' es hm) (fun m hm => ExecWithCap.panic_reloc cfg w ty n cl m hm)
   | empty => cases hr
   | stack b => cases hr
@@ -925,7 +927,7 @@ theorem with_capacity_then_pushes (cfg : Cfg) (w : World) (ms : MSpec) (h : MRel
     ∃ s', Rel (fun u => (step cfg (.withCap ty bk cl n) w).1.vecs[u]?) ms.vecs.length ty
         (runOps cfg ms.vecs.length ty (step cfg (.withCap ty bk cl n) w).1 (List.replicate n .push)) s' ∧
       s'.items = List.range' ms.next n ∧ s'.cap = n := by
-  rcases with_capacity_refines cfg w ms h ty bk cl n hr with ⟨hrel, _⟩ | ⟨m, _, hres⟩
+  rcases with_capacity_refines cfg w ms h ty bk cl n hr with ⟨hrel, _⟩ | ⟨m, _, hres, _⟩
   · have hv : (⟨ms.vecs ++ [some ⟨ty, [], n, false, cl⟩], ms.next⟩ : MSpec).vecs[ms.vecs.length]? =
         some (some ⟨ty, [], n, false, cl⟩) := by simp
     have hrel1 := rel_of_mrel _ _ hrel ms.vecs.length ⟨ty, [], n, false, cl⟩ hv
@@ -1354,7 +1356,7 @@ inductive AStep (cfg : Cfg) : MSpec → AOp → MSpec → Prop where
   /-- a new empty growable vector of capacity exactly `n`; or the request is refused and the half-built vector released -/
   | withCap (ms : MSpec) (ty : Nat) (bk : Backend) (cl : Bool) (n : Nat) :
       AStep cfg ms (.withCap ty bk cl n) ⟨ms.vecs ++ [some ⟨ty, [], n, false, cl⟩], ms.next⟩
-  | withCapRefused (ms : MSpec) (ty : Nat) (bk : Backend) (cl : Bool) (n : Nat) :
+  | withCapRefused (ms : MSpec) (ty : Nat) (bk : Backend) (cl : Bool) (n : Nat) (h : n ≠ 0 ∧ cfg.size ≠ 0) :
       AStep cfg ms (.withCap ty bk cl n) ⟨ms.vecs ++ [none], ms.next⟩
   | eswap (ms ms' : MSpec) (v i u j : Nat) (a au : AVec) (hv : ms.vecs[v]? = some (some a))
       (hu : ms.vecs[u]? = some (some au)) (h : SwapStep ms v u i j a au ms') : AStep cfg ms (.eswap v i u j) ms'
@@ -1412,9 +1414,9 @@ theorem astep_refines (cfg : Cfg) (w : World) (ms : MSpec) (h : MRel w ms) (op :
       rw [← hfx]
       cases hbk' : d.bk <;> simp [VecSt.buildCap, VecSt.resizable, hbk'] at hb ⊢
   | withCap ty bk cl n =>
-    rcases with_capacity_refines cfg w ms h ty bk cl n hok with ⟨hrel, hres⟩ | ⟨m, hrel, hres⟩
+    rcases with_capacity_refines cfg w ms h ty bk cl n hok with ⟨hrel, hres⟩ | ⟨m, hrel, hres, hneeds⟩
     · exact ⟨_, AStep.withCap ms ty bk cl n, hrel, by simp only [AOp.toOp]; rw [hres]; trivial⟩
-    · exact ⟨_, AStep.withCapRefused ms ty bk cl n, hrel, by simp only [AOp.toOp]; rw [hres]; trivial⟩
+    · exact ⟨_, AStep.withCapRefused ms ty bk cl n hneeds, hrel, by simp only [AOp.toOp]; rw [hres]; trivial⟩
   | eswap v i u j =>
     obtain ⟨hvu, ⟨a, hv⟩, au, hu⟩ := hok
     obtain ⟨ms', hs, hrel, hnub⟩ := eswap_refines cfg w ms h v u i j hvu a au hv hu
@@ -1510,6 +1512,20 @@ example : AStep { size := 8, align := 8, hasDrop := true } ⟨[some ⟨0, [5], 4
       ⟨[some ⟨0, [5], 4, false, true⟩] ++ [some ⟨0, [], 2, !VecSt.resizable (.stackN 2 48), true⟩], 6⟩ ∧
     AOk ⟨[some ⟨0, [5], 4, false, true⟩], 6⟩ (.cloneEmptyIn 0 (.stackN 2 48)) :=
   ⟨AStep.cloneEmptyIn _ 0 (.stackN 2 48) ⟨0, [5], 4, false, true⟩ 2 rfl ⟨8, 8, by decide⟩, ⟨_, rfl⟩⟩
+
+/-- `Safe` is satisfiable with the new steps too: `with_capacity(0)` is never refused (a refusal needs `n ≠ 0`), so the vector
+it makes can be relied on by what follows - here an empty clone of it, then both dropped -/
+example : Safe { size := 8, align := 8, hasDrop := true } ⟨[], 0⟩ [.withCap 0 .heap true 0, .cloneEmpty 0, .drop 0] := by
+  refine ⟨rfl, ?_⟩
+  intro ms1 h1
+  cases h1 with
+  | withCap =>
+    refine ⟨⟨_, rfl⟩, ?_⟩
+    intro ms2 h2
+    cases h2 with
+    | cloneEmpty _ a cap hv h => exact ⟨⟨a, by simpa using hv⟩, fun _ _ => trivial⟩
+    | cloneEmptyRefused _ a hv h => exact ⟨⟨a, hv⟩, fun _ _ => trivial⟩
+  | withCapRefused _ _ _ _ h => exact absurd rfl h.1
 
 end RefineMulti
 end AnyVec
